@@ -126,6 +126,9 @@ func (f *MapField) GenReadFrom() (string, error) {
 				l := enc.TLNum(0)
 				{{call .GenTlvNumberDecode "typ"}}
 				{{call .GenTlvNumberDecode "l"}}
+				if l > enc.TLNum(reader.Length()-reader.Pos()) {
+					return nil, enc.ErrFailToParse{TypeNum: typ, Err: io.ErrUnexpectedEOF}
+				}
 				if typ != {{.M.ValField.TypeNum}} {
 					return nil, enc.ErrFailToParse{TypeNum: {{.M.KeyField.TypeNum}}, Err: enc.ErrUnrecognizedField{TypeNum: typ}}
 				}
